@@ -11,6 +11,7 @@ import (
 	"encoding/json"
 	"fmt"
 	"os"
+	"runtime"
 	"strings"
 	"testing"
 )
@@ -75,4 +76,52 @@ func TestReplay(t *testing.T) {
 		}
 		fmt.Printf("REPLAY %s %s sig=%s :: %s\n", path, status, sig, strings.ReplaceAll(what, "\n", "\\n"))
 	}
+}
+
+// ---- probe kinds used by known_findings.json
+
+type acceptsCase struct {
+	Src string `json:"src"`
+}
+
+type costCase struct {
+	Src        string `json:"src"`
+	MaxAllocMB int    `json:"max_alloc_mb"`
+}
+
+func init() {
+	// "accepts": Compile must accept the source (signature carries the error otherwise)
+	registerReplay("accepts", func(raw json.RawMessage) (string, string) {
+		var c acceptsCase
+		if err := json.Unmarshal(raw, &c); err != nil {
+			return "bad-replay-file", err.Error()
+		}
+		_, err, p := CompileSafe(c.Src)
+		if p != nil {
+			return p.Sig(), "Compile panicked"
+		}
+		if err != nil {
+			return "rejected: " + firstLine(err.Error()), c.Src + " is rejected: " + firstLine(err.Error())
+		}
+		return "", ""
+	})
+	// "compile_cost": memory allocated by Compile stays under a bound
+	registerReplay("compile_cost", func(raw json.RawMessage) (string, string) {
+		var c costCase
+		if err := json.Unmarshal(raw, &c); err != nil {
+			return "bad-replay-file", err.Error()
+		}
+		var before, after runtime.MemStats
+		runtime.ReadMemStats(&before)
+		_, _, p := CompileSafe(c.Src)
+		runtime.ReadMemStats(&after)
+		if p != nil {
+			return p.Sig(), "Compile panicked"
+		}
+		mb := int((after.TotalAlloc - before.TotalAlloc) >> 20)
+		if mb > c.MaxAllocMB {
+			return "compile-cost", fmt.Sprintf("Compile of a %d-byte source allocated %d MB (bound %d MB)", len(c.Src), mb, c.MaxAllocMB)
+		}
+		return "", ""
+	})
 }
